@@ -652,4 +652,23 @@ theorem zipWith_theta_one (r0 r1 : Vec) (h : r0.length = r1.length) :
       simp only [List.zipWith_cons_cons, List.cons.injEq]
       refine ⟨by ring, ih r1 (by simpa using h)⟩
 
+/-- physical values to stored (scaled) values: divide by the nominal of the entry -/
+def encode (tab : NomTable) (v : Vec) : Vec :=
+  (List.range v.length).map fun i => v.getD i 0 / nomAt tab i
+
+theorem scaleSubst_encode (L : Layout) (tab : NomTable) (v : Vec) (hv : v.length ≤ L.nX + 1)
+    (hν : ∀ i, i < v.length → nomAt tab i ≠ 0) : scaleSubst L tab (encode tab v) = v := by
+  apply List.ext_getElem
+  · simp [scaleSubst, encode]
+  · intro i h1 h2
+    have hi : i < (encode tab v).length := by simpa [encode] using h2
+    have := scaleSubst_getD L tab (encode tab v) i hi (by omega)
+    rw [List.getD_eq_getElem?_getD, List.getElem?_eq_getElem h1] at this
+    simp only [Option.getD_some] at this
+    rw [this]
+    have he : (encode tab v).getD i 0 = v.getD i 0 / nomAt tab i := by
+      simp [encode, List.getD_eq_getElem?_getD, List.getElem?_map, List.getElem?_range h2]
+    rw [he, div_mul_cancel₀ _ (hν i h2)]
+    simp [List.getD_eq_getElem?_getD, List.getElem?_eq_getElem h2]
+
 end RtcVerif.C09
